@@ -387,7 +387,7 @@ def h_unpack_stretchy(entry, n):
 def conditions(tier):
     q = tier == 'quick'
     conds = []
-    T = 240 if q else 1200
+    T = 240 if q else 450
     GOLOMB_RANGE[:] = [1, 2] if q else [3, 4]
 
     def add(cid, fn, bounds, **params):
